@@ -96,6 +96,17 @@ impl ValidationReport {
     pub fn process(
         engine: &Engine, config: &Config, initial: bool,
     ) -> Result<(Self, Metrics), RunFailed> {
+        #[cfg(feature = "verif-hooks")]
+        {
+            crate::verif::point("run.start", || {
+                if initial { "initial" } else { "regular" }
+            });
+            match crate::verif::fault("run.outcome", || "") {
+                Some(1) => return Err(RunFailed::retry()),
+                Some(2) => return Err(RunFailed::fatal()),
+                _ => { }
+            }
+        }
         let report = Self::new(config);
         let mut run = engine.start(&report, initial)?;
         run.process()?;
